@@ -138,8 +138,9 @@ def parser_with_history(rnd):
     from core import wl
     out = Output(False, rnd.random() < 0.7, stream.String(), stream.String())
     p = Parser(out, recording_sink())
-    for cid in rnd.sample(['A', 'B', 'c', 'PARSED', 'x1'], rnd.randint(0, 4)):
-        p.known_connections.add(cid)
+    # history through the real code: some connections have been seen already, in some order
+    for _ in range(rnd.randint(0, 5)):
+        p.handle_message(rnd.choice(['A', 'B', 'c', 'PARSED', 'x1']), simple_message(rnd))
     return p
 
 
